@@ -198,7 +198,7 @@ def elem_sources(prog, sc, e, mode, depth):
     return [Src("other", "element of %s" % name, mode)]
 
 
-def literals(prog, prefix="bemodel::convert::from_ctehexml::"):
+def literals(prog, prefix="bemodel::convert::from_ctehexml::", adt_prefix="bemodel::types"):
     """(scope, adt short name, node, loc) for every model-type struct literal built in the converter"""
     out = []
     for f in sorted(prog.fns.values(), key=lambda f: f.id):
@@ -207,7 +207,7 @@ def literals(prog, prefix="bemodel::convert::from_ctehexml::"):
         root = Scope(prog, f)
         for sc in root.all_scopes():
             for b, i, s in sc.body.statements():
-                if s["s"] == "assign" and s["rv"]["r"] == "agg" and s["rv"].get("adt", "").startswith("bemodel::types"):
+                if s["s"] == "assign" and s["rv"]["r"] == "agg" and s["rv"].get("adt", "").startswith(adt_prefix):
                     out.append((sc, s["rv"]["adt"].split("::")[-1], sc.rvalue(s["rv"]), sc.fn.loc(s.get("ln"))))
     return out
 
